@@ -151,7 +151,15 @@ impl<'tcx> Cx<'tcx> {
                 o(vec![("k", J::s("dyn")), ("p", J::s(p)), ("a", a), ("auto", J::Arr(autos)), ("s", s)])
             }
             ty::FnPtr(..) => o(vec![("k", J::s("fnptr")), ("s", s)]),
-            ty::Alias(..) => o(vec![("k", J::s("alias")), ("s", s)]),
+            ty::Alias(at) => {
+                // structure of projections (`<A as AvxNum>::VectorType`): assoc item path + args (Self first)
+                let a = self.args_json(at.args);
+                let p = match at.kind {
+                    ty::AliasTyKind::Projection { def_id } => self.dname(def_id),
+                    _ => String::new(),
+                };
+                o(vec![("k", J::s("alias")), ("p", J::s(p)), ("a", a), ("s", s)])
+            }
             _ => o(vec![("k", J::s("other")), ("s", s)]),
         }
     }
@@ -764,12 +772,18 @@ impl<'tcx> Cx<'tcx> {
         }
         let mut items = Vec::new();
         for it in tcx.associated_items(d).in_definition_order() {
-            items.push(o(vec![
+            let mut iv = vec![
                 ("name", J::s(it.name().to_string())),
                 ("id", J::s(self.did(it.def_id))),
                 ("kind", J::s(format!("{:?}", tcx.def_kind(it.def_id)))),
                 ("pub", J::Bool(tcx.visibility(it.def_id).is_public())),
-            ]));
+            ];
+            if matches!(tcx.def_kind(it.def_id), DefKind::AssocTy) {
+                // the value of an associated type of an impl (`type VectorType = __m256;`)
+                let t = tcx.type_of(it.def_id).skip_binder();
+                iv.push(("ty", J::n(self.ty_id(t))));
+            }
+            items.push(o(iv));
         }
         v.push(("items", J::Arr(items)));
         o(v)
